@@ -6,7 +6,7 @@
    recombines the real component results.  The theorems below make the law explicit and lift the metric /
    interpolation properties from the components. *)
 From Coq Require Import ZArith NArith List Bool Floats Reals.
-From OX Require Import Numerics.FloatBits Gen.Consts Spaces.SpacesF Spaces.SpacesR Spaces.SpacesR_RV.
+From OX Require Import Numerics.FloatBits Gen.Consts Spaces.SpacesF Spaces.SpacesR Spaces.SpacesR_RV Spaces.CompoundN.
 Import ListNotations.
 
 Section Law.
@@ -80,6 +80,33 @@ Theorem C13_monotone : forall w x y, length w = length x -> length x = length y 
   Forall2 (fun xi yi => xi <= yi) x y -> cmp_dist w x <= cmp_dist w y.
 Proof. exact cmp_dist_mono. Qed.
 
+(* the same law for ANY number of components and any nesting (Spaces/CompoundN.v): the compound result is the
+   documented fold of the component results, whatever the width *)
+Theorem C13_distance_law_n : forall acosF subs xs ys ds, comp_dist acosF subs xs ys ds ->
+  distance acosF (CS subs) (VC xs) (VC ys) = Ok (cs_dist_of ds (map snd subs)).
+Proof. exact distance_CS_n. Qed.
+Theorem C13_resolution_law_n : forall subs,
+  lvs (CS subs) = cs_dist_of (map (fun sw => lvs (fst sw)) subs) (map snd subs).
+Proof. exact lvs_CS_n. Qed.
+Theorem C13_interpolate_componentwise_n : forall acosF sinF t subs xs ys os rs, comp_int acosF sinF t subs xs ys os rs ->
+  interpolate acosF sinF (CS subs) (VC xs) (VC ys) t (VC os) = Ok (VC rs).
+Proof. exact interpolate_CS_n. Qed.
+Theorem C13_enforce_componentwise_n : forall acosF sinF subs xs rs, comp_enf acosF sinF subs xs rs ->
+  enforce acosF sinF (CS subs) (VC xs) = Ok (VC rs).
+Proof. exact enforce_CS_n. Qed.
+Theorem C13_satisfies_componentwise_n : forall acosF subs xs bs, comp_sat acosF subs xs bs ->
+  satisfies acosF (CS subs) (VC xs) = Ok (forallb (fun b => b) bs).
+Proof. exact satisfies_CS_n. Qed.
+Theorem C13_satisfies_first_false : forall acosF s w subs x xs,
+  satisfies acosF s x = Ok false -> satisfies acosF (CS ((s, w) :: subs)) (VC (x :: xs)) = Ok false.
+Proof. exact satisfies_CS_first_false. Qed.
+
+Print Assumptions C13_distance_law_n.
+Print Assumptions C13_resolution_law_n.
+Print Assumptions C13_interpolate_componentwise_n.
+Print Assumptions C13_enforce_componentwise_n.
+Print Assumptions C13_satisfies_componentwise_n.
+Print Assumptions C13_satisfies_first_false.
 Print Assumptions C13_distance_law_2.
 Print Assumptions C13_resolution_law_2.
 Print Assumptions C13_interpolate_componentwise_2.
